@@ -88,6 +88,9 @@ func (e *VerifEW) SetFields(weightVal float64, nonEmptySince, lastUpdated time.T
 type VerifPicker struct {
 	p     *picker
 	sched scheduler
+	// Guard, when set, is called before every real picker.inc() made by the scheduler, so that
+	// the harness can bound a nextIndex call that would otherwise spin forever.
+	Guard func()
 }
 
 // VerifNewPicker builds a picker over the endpoints, with the sequence counter at idx.
@@ -104,12 +107,20 @@ func VerifNewPicker(c VerifCfg, eps []*VerifEW, idx uint32) *VerifPicker {
 // kind "nil" | "rr" (numSCs) | "edf" (weights).
 func (vp *VerifPicker) NewScheduler(recordMetrics bool) (kind string, numSCs uint32, weights []uint16) {
 	vp.sched = vp.p.newScheduler(recordMetrics)
+	guarded := func() uint32 {
+		if vp.Guard != nil {
+			vp.Guard()
+		}
+		return vp.p.inc() // the real sequence source
+	}
 	switch s := vp.sched.(type) {
 	case nil:
 		return "nil", 0, nil
 	case *rrScheduler:
+		s.inc = guarded
 		return "rr", s.numSCs, nil
 	case *edfScheduler:
+		s.inc = guarded
 		return "edf", 0, append([]uint16(nil), s.weights...)
 	}
 	return "unknown", 0, nil
